@@ -171,7 +171,90 @@ def rule_message_roles(ctx: Ctx, rep: Report) -> None:
     rep.ob(rule, "bip322:shape_checked", bool(sh) and "spend" in norm(sh[0]), fi.where(), "to_sign is held to spend to_spend")
 
 
+UNUSED_PARAM_OK = {
+    # (function, parameter): why it is rightly unread
+    ("btclib.psbt_signer.SoftwareSigner.sign_schnorr_script_path", "leaf_hash"): "a script-path signature is made with the untweaked key whatever the leaf; the parameter is the KeyManager protocol's, for signers that must be told the leaf",
+}
+
+
+def rule_params_used(ctx: Ctx, rep: Report) -> None:
+    """C10.params_used: in the signing path every parameter a function is handed
+    is read by it. A parameter that is accepted and never read is a value the
+    caller believes is in force -- the merkle root of a key-path spend, the
+    sighash type, the network -- while the callee's default is: the signature
+    is then for another output key (or another digest) and the library's own
+    engine refuses what the library built."""
+    rule = "C10.params_used"
+    n = 0
+    for fi in sorted(ctx.prog.functions.values(), key=lambda f: f.qualname):
+        local = fi.qualname.rsplit(".", 1)[1].lower()
+        if not (fi.qualname.startswith("btclib.psbt_signer.") or (any(fi.qualname.startswith(p_) for p_ in ("btclib.psbt.psbt.", "btclib.bip322.", "btclib.ecc.bms."))
+                                                                    and any(w in local for w in ("sign", "finaliz", "sig_hash")))):
+            continue  # the signing path: the signer classes, and what signs / finalizes / computes a digest
+        body = [st for st in fi.node.body if not (isinstance(st, ast.Expr) and isinstance(st.value, ast.Constant))]
+        if not body or all(isinstance(st, (ast.Raise, ast.Pass)) for st in body):
+            continue  # a protocol stub
+        used = {x.id for x in ast.walk(fi.node) if isinstance(x, ast.Name) and isinstance(x.ctx, ast.Load)}
+        for p_ in fi.params():
+            if p_ in ("self", "cls") or p_.startswith("_"):
+                continue
+            n += 1
+            why = UNUSED_PARAM_OK.get((fi.qualname, p_))
+            if p_ in used:
+                rep.ob(rule, f"{fi.qualname}({p_})", True, fi.where(), "read")
+            elif why:
+                rep.ob(rule, f"{fi.qualname}({p_})", True, fi.where(), f"reviewed: {why}")
+            else:
+                rep.ob(rule, f"{fi.qualname}({p_})", False, fi.where(), f"the parameter `{p_}` is accepted and never read: the caller's value is not in force, a default is")
+    rep.floor(rule, 60)
+
+
+def rule_bip322_first_prevout(ctx: Ctx, rep: Report) -> None:
+    """C10.bip322_first_prevout: what binds a BIP322 signature to the message and
+    the address is the output the *verifier* rebuilds (`to_spend`): the list of
+    spent outputs starts with it and the psbt's own utxo for the first input is
+    never consulted -- the list is extended from the psbt past its first entry,
+    never replaced by the psbt's."""
+    rule = "C10.bip322_first_prevout"
+    fi = ctx.func("btclib.bip322.assert_as_valid")
+    m: dict[str, str] = {}
+    sol = PT.solve(fi.node, ["$spend = to_spend(msg, $spk)", "$p = list($spend.vout)"], m)
+    if not sol:
+        rep.unknown(rule, "assert_as_valid", fi.where(), "the rebuilt challenge and the prevout list are not in the shape this rule reads")
+        return
+    m = sol[1]
+    pn = m["p"]
+    rep.ob(rule, "starts_with_rebuilt_output", True, fi.where(sol[0][1]), "prevouts = list(to_spend(msg, script_pub_key).vout)")
+    for a in own_nodes(fi.node):
+        if isinstance(a, ast.Assign) and any(isinstance(t, ast.Name) and t.id == pn for t in a.targets) and a is not sol[0][1]:
+            keeps = f"{m['spend']}.vout" in str(norm(a.value)) or any(isinstance(x, ast.Name) and x.id == pn for x in ast.walk(a.value))
+            rep.ob(rule, f"reassigned:{norm(a)[:60]}", keeps, fi.where(a), "keeps the rebuilt output first" if keeps else
+                   f"`{norm(a)}` replaces the whole list: the first spent output is then whatever the signature's own psbt declares, and a signature verifies for an address its key does not control")
+        if isinstance(a, ast.AugAssign) and isinstance(a.target, ast.Name) and a.target.id == pn:
+            v = a.value
+            skips = isinstance(v, ast.Subscript) and isinstance(v.slice, ast.Slice) and v.slice.lower is not None and ctx.fold(v.slice.lower, fi.module) == 1
+            rep.ob(rule, f"extended:{norm(a)[:60]}", skips, fi.where(a), "extended with the psbt's further inputs, its first skipped" if skips else
+                   f"`{norm(a)}` appends the psbt's first utxo as well: the lists no longer line up with the inputs")
+
+
+def rule_after_needs_sequence(ctx: Ctx, rep: Report) -> None:
+    """C10.after_needs_sequence: miniscript's `after(n)` is satisfiable only when
+    the spending input's sequence is not final (BIP65: CHECKLOCKTIMEVERIFY
+    fails under 0xffffffff), so the satisfier's `_after` asks the sequence too --
+    else it hands out a witness the engine refuses."""
+    rule = "C10.after_needs_sequence"
+    fi = ctx.func("btclib.descriptors.miniscript.SpendContext._after")
+    refs = [c for c in own_nodes(fi.node) if isinstance(c, ast.Compare) and "self.sequence" in str(norm(c)) and any(ctx.fold(x, fi.module) == 0xFFFFFFFF for x in [c.left] + list(c.comparators))]
+    rep.ob(rule, "_after:sequence_not_final", bool(refs), fi.where(), "the input's sequence must not be 0xffffffff" if refs else
+           "`_after` does not look at the input's sequence: under a final sequence the lock time is disabled and OP_CHECKLOCKTIMEVERIFY fails")
+    older = ctx.func("btclib.descriptors.miniscript.SpendContext._older")
+    rep.ob(rule, "_older:version_2", "self.tx_version" in str(norm(older.node)) or "version" in str(norm(older.node)), older.where(), "older() needs a version-2 transaction (BIP68)")
+
+
 RULES = [
+    ("C10.params_used", rule_params_used),
+    ("C10.bip322_first_prevout", rule_bip322_first_prevout),
+    ("C10.after_needs_sequence", rule_after_needs_sequence),
     ("C10.same_hash_type", rule_same_hash_type),
     ("C10.finalize_verifies", rule_finalize_verifies),
     ("C10.signed_then_checked", rule_signed_then_checked),
@@ -179,6 +262,12 @@ RULES = [
 ]
 
 CONTROLS = [
+    {"rule": "C10.params_used", "name": "the key-path signer drops the merkle root", "module": "btclib.psbt_signer",
+     "edit": lambda ctx: M.sub_expr(ctx, "btclib.psbt_signer.SoftwareSigner.sign_schnorr", M.is_text("output_prvkey_from_merkle_root(prv_key, merkle_root)"), "output_prvkey_from_merkle_root(prv_key)")},
+    {"rule": "C10.bip322_first_prevout", "name": "the prevouts come from the psbt alone", "module": "btclib.bip322",
+     "edit": lambda ctx: M.sub_expr(ctx, "btclib.bip322.assert_as_valid", lambda n: isinstance(n, ast.AugAssign) and "_psbt_prevouts" in norm(n), "prevouts = _psbt_prevouts(payload)")},
+    {"rule": "C10.after_needs_sequence", "name": "after() ignores the sequence", "module": "btclib.descriptors.miniscript",
+     "edit": lambda ctx: M.sub_expr(ctx, "btclib.descriptors.miniscript.SpendContext._after", lambda n: isinstance(n, ast.BoolOp) and "self.sequence" in norm(n), "value <= self.locktime")},
     {"rule": "C10.same_hash_type", "name": "ecdsa suffix hard-wired to ALL", "module": P,
      "edit": lambda ctx: M.sub_expr(ctx, f"{P}._sign_ecdsa_input", M.is_text("sig + hash_type.to_bytes(1, 'big')"), "sig + ALL.to_bytes(1, 'big')")},
     {"rule": "C10.same_hash_type", "name": "taproot DEFAULT appended as a zero byte", "module": P,
